@@ -77,6 +77,10 @@ theorem read_next_rat_ok (cs : List Char) {d : Datum} {s : Read.PState}
     (h : Read.nextDatum (Read.ofText cs) = .ok (some d, s)) : d.ratOk = true :=
   (Read.nextDatum_ratOk h (Read.ofText_ratOK cs)).2 d rfl
 
+/-- the hypothesis of `read_next_rat_ok` is satisfiable: the probe text reads as one datum -/
+example : Read.nextDatum (Read.ofText Usable.txt) = .ok (some Usable.d0, Usable.s1) := by
+  rw [Usable.ofText_txt]; exact Usable.next0
+
 /-- `toStatement` (datum → AST, with macro expansion) never panics: every datum, every syntax
 environment, every fuel. (The only panic site of this stage is the `get_mut(..).unwrap()` of the
 matcher, unreachable by `C04.match_no_panic`.) -/
@@ -93,11 +97,19 @@ theorem rules_rat_ok {k : String} {d : Datum} {r : Macro.Rules} (h : Macro.toRul
     (hd : d.ratOk = true) : r.RatOK :=
   Macro.toRules_ratOk h hd
 
+/-- `(syntax-rules () ((m) 1/2))` -/
+example : (Macro.toRules "m" (.pair (.sym "syntax-rules" none) (.pair (.nil none)
+    (.pair (.pair (.pair (.sym "m" none) (.nil none) none) (.pair (.prim (.rat 1 2) none) (.nil none) none) none)
+      (.nil none) none) none) none)) =
+    .ok ⟨[], [(.nil, .prim (.rat 1 2))]⟩ := rfl
+
 /-- Macro expansion keeps data free of `n/0`: the table only ever holds sub-data of the use, and
 the template is `n/0`-free. -/
 theorem expansion_rat_ok {fuel : Nat} {r : Macro.Rules} {use d : Datum} (hr : r.RatOK)
     (hu : use.ratOk = true) (h : Macro.transform fuel r use = .ok d) : d.ratOk = true :=
   Macro.transform_ratOk hr hu h
+
+example : Macro.transform 10 ⟨[], [(.nil, .prim (.rat 1 2))]⟩ (.nil none) = .ok (.prim (.rat 1 2) none) := rfl
 
 /-- Every statement `toStatement` produces from `n/0`-free data in an `n/0`-free syntax
 environment is `ok`: every lambda in it (recursively) has a non-empty body (`toBody` rejects an
@@ -126,6 +138,8 @@ theorem builtin_panic_sites (σ : Store) (b : Builtin) (args : List Value)
     (har : Eval.arityOk b.arity.1 b.arity.2 args.length = true) :
     ∀ s l, (Prim.applyPure σ b args).1 = .error (.panic s, l) → s ∈ Prim.pureSites :=
   Prim.applyPure_sites har
+
+example : Eval.arityOk Builtin.vectorRef.arity.1 Builtin.vectorRef.arity.2 2 = true := rfl
 
 /-- In particular the result is never `Prim.missing b _`, the rendering of a native procedure
 reading an argument that is not there. -/
